@@ -8,6 +8,7 @@ import SqlObjVerif.Lemmas.DdlXJoin
 import SqlObjVerif.Lemmas.DdlXWMain
 import SqlObjVerif.Lemmas.DdlXWCreate
 import SqlObjVerif.Lemmas.DdlXWCol
+import SqlObjVerif.Lemmas.DdlXWRecreate
 /-!
 # C14 — the generated schema matches the class declaration, in every dialect
 
@@ -463,18 +464,18 @@ theorem C14_translated_indexSQL_eq_model (n : Nat) (d : Dialect) (c : Caps) (dec
       .ok (.str (indexSQL d decl ix)) := createIndexSQL_eq n d c decl c0 x ix
 
 /-- the statements of the connection classes against the catalogue: `_SO_createJoinTable` (CREATE TABLE of the link
-    table), `_SO_createIndex` (not MySQL), `createTable` of all seven classes (Firebird / MaxDB: plus the generator / sequence
+    table), `_SO_createIndex` (MySQL's `ALTER TABLE … ADD INDEX` included), `createTable` of all seven classes (Firebird / MaxDB: plus the generator / sequence
     statement) -/
 theorem C14_translated_conn_statements_eq_model (n : Nat) (d : Dialect) (c : Caps) (decl : Decl) (c0 : Val) (w : Cat)
     (j : JoinD) (ix : Index) (hj : 32 ∉ j.join.table) (ht : 32 ∉ decl.tableName) (hi : 32 ∉ ix.name) :
     callNW prog ddlI EX (n + 3) w (.meth (connCls d) M__SO_createJoinTable) [connV d c, jV j] =
       createRes j.join.table .none w ∧
-    (d ≠ .mysql → callNW prog ddlI EX (n + 3) w (.meth (connCls d) M__SO_createIndex)
-        [connV d c, soClassV decl c0 x, ixV decl ix] = indexRes decl.tableName ix.name w) ∧
+    callNW prog ddlI EX (n + 3) w (.meth (connCls d) M__SO_createIndex)
+        [connV d c, soClassV decl c0 x, ixV decl ix] = indexRes decl.tableName ix.name w ∧
     (∀ text, createTableSQL Extracted.tables d c decl = some text →
       callNW prog ddlI EX (n + 10) w (.meth (connCls d) M_createTable) [connV d c, soClassV decl c0 x] =
         createRes decl.tableName (strList (constraints Extracted.tables d decl)) w) :=
-  ⟨connCreateJoinTable n d c j w hj, fun hd => connCreateIndex n d hd c decl c0 x ix w ht hi,
+  ⟨connCreateJoinTable n d c j w hj, connCreateIndex n d c decl c0 x ix w ht hi,
    fun text h => connCreateTable n d c decl c0 w text h ht⟩
 
 /-- `SQLObject.createJoinTables(ifNotExists, connection)` = `createLinks` over `linksOf true` of the owned link tables -/
@@ -521,19 +522,19 @@ theorem C14_translated_drop_idempotent (n : Nat) (d : Dialect) (c : Caps) (decl 
   obtain ⟨v', hv'⟩ := agreesW_ok hb2
   exact ⟨v, w1, hv, hnot, v', hv'⟩
 
-/-- `SQLObject.createIndexes(ifNotExists, connection)` = `createIdx` (the flag is ignored; not MySQL) -/
-theorem C14_translated_createIndexes_eq_model (n : Nat) (d : Dialect) (hd : d ≠ .mysql) (c : Caps) (decl : Decl)
+/-- `SQLObject.createIndexes(ifNotExists, connection)` = `createIdx` (the flag is ignored), all seven dialects -/
+theorem C14_translated_createIndexes_eq_model (n : Nat) (d : Dialect) (c : Caps) (decl : Decl)
     (c0 : Val) (ine : Bool) (w : Cat) (ht : 32 ∉ decl.tableName) (hb : ∀ ix ∈ decl.indexes, 32 ∉ ix.name) :
     agreesW (callNW prog ddlI EX (n + 4) w (.meth C_SQLObject M_createIndexes)
         [soClassV decl c0 x, .bool ine, connV d c])
-      (createIdx decl.tableName (decl.indexes.map (·.name)) w) := createIndexes_eq n d hd c decl c0 ine w ht hb
+      (createIdx decl.tableName (decl.indexes.map (·.name)) w) := createIndexes_eq n d c decl c0 ine w ht hb
 
 /-- **`SQLObject.createTable(ifNotExists, createJoinTables, createIndexes=True, applyConstraints, connection)`
     translated = `createTableG`** with the flags extracted from the source: the `tableExists` early return, the CREATE
     TABLE statement of `conn.createTable`, the constraint statements (executed or handed back: no catalogue effect),
-    `createJoinTables` with the flag handed on, `createIndexes`.  Every connection class but MySQL's;
+    `createJoinTables` with the flag handed on, `createIndexes`.  All seven connection classes;
     the declaration is one the renderer accepts; table / link table / index names without blanks. -/
-theorem C14_translated_createTable_eq_model (n : Nat) (d : Dialect) (hmy : d ≠ .mysql) (c : Caps)
+theorem C14_translated_createTable_eq_model (n : Nat) (d : Dialect) (c : Caps)
     (decl : Decl) (c0 : Val) (ine cj ac : Bool) (w : Cat) (text : Str)
     (ht : createTableSQL Extracted.tables d c decl = some text)
     (hb : 32 ∉ decl.tableName) (hbl : ∀ j ∈ joinsToCreateX x.joins, 32 ∉ j.join.table)
@@ -542,11 +543,11 @@ theorem C14_translated_createTable_eq_model (n : Nat) (d : Dialect) (hmy : d ≠
         [soClassV decl c0 x, .bool ine, .bool cj, .bool true, .bool ac, connV d c])
       (createTableG Extracted.createPassesIfNotExists Extracted.createDedupes ine cj
         ⟨decl.tableName, linkNames x.joins, decl.indexes.map (·.name)⟩ w) :=
-  createTable_eq n d hmy c decl c0 ine cj ac w text ht hb hbl hbi
+  createTable_eq n d c decl c0 ine cj ac w text ht hb hbl hbi
 
 /-- **Create-if-missing is idempotent, about the translated source**: when the translated
     `createTable(ifNotExists=True, …)` ends normally in catalogue `w1`, running it again from `w1` ends normally in `w1` -/
-theorem C14_translated_create_idempotent (n : Nat) (d : Dialect) (hmy : d ≠ .mysql) (c : Caps)
+theorem C14_translated_create_idempotent (n : Nat) (d : Dialect) (c : Caps)
     (decl : Decl) (c0 : Val) (cj ac : Bool) (w w1 : Cat) (v : Val) (text : Str)
     (ht : createTableSQL Extracted.tables d c decl = some text)
     (hb : 32 ∉ decl.tableName) (hbl : ∀ j ∈ joinsToCreateX x.joins, 32 ∉ j.join.table)
@@ -555,16 +556,16 @@ theorem C14_translated_create_idempotent (n : Nat) (d : Dialect) (hmy : d ≠ .m
         [soClassV decl c0 x, .bool true, .bool cj, .bool true, .bool ac, connV d c] = (.ok v, w1)) :
     ∃ v', callNW prog ddlI EX (n + 11) w1 (.meth C_SQLObject M_createTable)
         [soClassV decl c0 x, .bool true, .bool cj, .bool true, .bool ac, connV d c] = (.ok v', w1) := by
-  have h1 := agreesW_ok_inv (createTable_eq (x := x) n d hmy c decl c0 true cj ac w text ht hb hbl hbi) h
+  have h1 := agreesW_ok_inv (createTable_eq (x := x) n d c decl c0 true cj ac w text ht hb hbl hbi) h
   have h2 := C14_create_if_missing_idempotent_flags cj _ w w1 h1
-  have h3 := createTable_eq (x := x) n d hmy c decl c0 true cj ac w1 text ht hb hbl hbi
+  have h3 := createTable_eq (x := x) n d c decl c0 true cj ac w1 text ht hb hbl hbi
   rw [h2] at h3
   exact agreesW_ok h3
 
 /-- **Plain create then plain drop, about the translated source**: what the translated `createTable()` made, the
     translated `dropTable()` removes again — it ends normally and the table list is as before — for every set of
     joins, including a link table owned twice (self-referential join declared in both directions) -/
-theorem C14_translated_create_drop_idempotent (n m : Nat) (d : Dialect) (hmy : d ≠ .mysql) (c : Caps)
+theorem C14_translated_create_drop_idempotent (n m : Nat) (d : Dialect) (c : Caps)
     (decl : Decl) (c0 : Val) (ac cas : Bool) (w w1 : Cat) (v : Val) (text : Str)
     (ht : createTableSQL Extracted.tables d c decl = some text)
     (hb : 32 ∉ decl.tableName) (hbl : ∀ j ∈ joinsToCreateX x.joins, 32 ∉ j.join.table)
@@ -573,7 +574,7 @@ theorem C14_translated_create_drop_idempotent (n m : Nat) (d : Dialect) (hmy : d
         [soClassV decl c0 x, .bool false, .bool true, .bool true, .bool ac, connV d c] = (.ok v, w1)) :
     ∃ v' w2, callNW prog ddlI EX (m + 3) w1 (.meth C_SQLObject M_dropTable)
         [soClassV decl c0 x, .bool false, .bool true, .bool cas, connV d c] = (.ok v', w2) ∧ w2.tables = w.tables := by
-  have h1 := agreesW_ok_inv (createTable_eq (x := x) n d hmy c decl c0 false true ac w text ht hb hbl hbi) h
+  have h1 := agreesW_ok_inv (createTable_eq (x := x) n d c decl c0 false true ac w text ht hb hbl hbi) h
   obtain ⟨w2, h2, h3⟩ := C14_plain_drop_after_create _ w w1 h1
   have h4 := dropTable_eq (x := x) m d c decl c0 false true cas w1 (decl.indexes.map (·.name)) hb hbl
   rw [h2] at h4
@@ -613,6 +614,19 @@ theorem C14_translated_delColumn_drops_indexes_full_FALSE :
   intro h
   have h1 := h witDecl witVictim witCat ⟨[[116]], []⟩ .none delColumn_witness ([116], [105]) (by decide) rfl
   simp at h1
+
+/-- **`SQLiteConnection.delColumn(sqlmeta, column)` → `recreateTableWithoutColumn` translated issues exactly
+    `recreateStmts`**, for every declaration, deleted column and call depth ≥ 9: `ALTER TABLE t RENAME TO t_ORIGINAL`;
+    `CREATE TABLE t (…)` with the key column and the `colText` definitions of exactly the columns of
+    `sqlmeta.columnList` whose name differs from the deleted column's (`keepCol`), in order; `INSERT INTO t (cols)
+    SELECT cols FROM t_ORIGINAL` over the key and the columns of `columnList` (the rows' remaining values);
+    `DROP TABLE t_ORIGINAL` — four statements, none of them re-creates an index (cf. the `_full_FALSE` theorem above) -/
+theorem C14_translated_sqlite_delColumn_eq_model (n : Nat) (c : Caps) (decl : Decl) (c0 : Val) (victim : Col) (i : Str)
+    (ts : List Str) (log : List Str) (hi : idText Extracted.tables .sqlite decl = some i)
+    (hts : allSome ((decl.cols.filter (keepCol victim)).map (colText Extracted.tables .sqlite c decl.style)) = some ts) :
+    callNW prog ddlI ELog (n + 9) log (.meth C_SQLiteConnection M_delColumn)
+        [connV .sqlite c, metaV decl c0 x, colV Extracted.tables decl.style decl.tableName c0 victim] =
+      (.ok .none, log ++ recreateStmts decl i ts) := sqlite_delColumn_log n c decl c0 x victim i ts log hi hts
 
 end Translated
 
